@@ -1,6 +1,7 @@
 package zzverif
 
 import (
+	"encoding/binary"
 	"fmt"
 	"net/url"
 	"os"
@@ -109,6 +110,37 @@ func (w *qWorld) collect() {
 		}
 	}
 	sort.Slice(all, func(i, j int) bool { return all[i].f.Seq < all[j].f.Seq })
+	// Receipt order equals send order on ONE connection only: two frames of the
+	// same message sent to two connections at the same simulated instant are
+	// stamped in the order the harness's reader goroutines happen to run. Among
+	// such frames the attempts count gives the order they were sent in.
+	type slot struct {
+		pos int
+		att uint16
+	}
+	groups := map[string][]slot{}
+	for i, cf := range all {
+		if cf.f.Type != frameMessage || len(cf.f.Data) < 26 {
+			continue
+		}
+		k := cf.co.ck + "|" + string(cf.f.Data[10:26]) + "|" + cf.f.At.String()
+		groups[k] = append(groups[k], slot{i, binary.BigEndian.Uint16(cf.f.Data[8:10])})
+	}
+	for _, g := range groups {
+		if len(g) < 2 {
+			continue
+		}
+		frames := make([]coFrame, len(g))
+		for i, s := range g {
+			frames[i] = all[s.pos]
+		}
+		sort.SliceStable(frames, func(i, j int) bool {
+			return binary.BigEndian.Uint16(frames[i].f.Data[8:10]) < binary.BigEndian.Uint16(frames[j].f.Data[8:10])
+		})
+		for i, s := range g {
+			all[s.pos] = frames[i]
+		}
+	}
 	for _, cf := range all {
 		switch cf.f.Type {
 		case frameMessage:
